@@ -267,13 +267,13 @@ func plainCases() []plainCase {
 			return &descriptorpb.DescriptorProto{Name: proto.String("M"), Field: []*descriptorpb.FieldDescriptorProto{{Name: proto.String("f"), Number: proto.Int32(1)}}}
 		}, func() interface{} { return &descriptorpb.DescriptorProto{} }, func(m interface{}) {
 			f := m.(*descriptorpb.DescriptorProto).Field[0]
-			f.Name, f.TypeName = proto.String(long), proto.String(".pkg.T")
+			f.Name, f.TypeName = proto.String(f.GetName()+long), proto.String(f.GetTypeName()+".pkg.T") // longer at every call
 		}},
 		{"gogo", "DescriptorProto", func() interface{} {
 			return &gogodesc.DescriptorProto{Name: gogoproto.String("M"), Field: []*gogodesc.FieldDescriptorProto{{Name: gogoproto.String("f"), Number: gogoproto.Int32(-1)}}}
 		}, func() interface{} { return &gogodesc.DescriptorProto{} }, func(m interface{}) {
 			f := m.(*gogodesc.DescriptorProto).Field[0]
-			f.Name, f.TypeName = gogoproto.String(long), gogoproto.String(".pkg.T")
+			f.Name, f.TypeName = gogoproto.String(f.GetName()+long), gogoproto.String(f.GetTypeName()+".pkg.T")
 		}},
 		{"gogo", "FileDescriptorProto", func() interface{} {
 			return &gogodesc.FileDescriptorProto{Name: gogoproto.String(long), Dependency: []string{"a", "", "b"}}
@@ -608,46 +608,13 @@ func (d *Driver) FamDispatch(perType, G int) {
 		if pc.grow != nil {
 			// a message without fast-marshal code that was sized / marshaled before and then changed in a nested message: the owning
 			// runtime recomputes every cached size, so must csproto (plain types only: for fast-marshal types this is C09's finding)
-			rt := runtimeOf(pc.fl)
-			for _, first := range []string{"csproto.Marshal", "csproto.Size", "runtime.Marshal", "GrpcCodec.Marshal"} {
-				e := &DEv{C: "disp", Op: "MarshalMutated", Fl: specFlavour(pc.fl), Key: "plain/" + pc.fl + "/" + pc.name + "/" + first}
-				var err error
-				guard(&e.St, &e.Note, func() {
-					m := pc.mk()
-					switch first {
-					case "csproto.Marshal":
-						_, _ = csproto.Marshal(m)
-					case "csproto.Size":
-						_ = csproto.Size(m)
-					case "runtime.Marshal":
-						_, _ = rt.marshal(m)
-					default:
-						_, _ = csproto.GrpcCodec{}.Marshal(m)
-					}
-					pc.grow(m)
-					sizeBefore := csproto.Size(m) // asked for before anything re-marshals the message
-					var b []byte
-					b, err = csproto.Marshal(m)
-					e.Stab = retain(b)
-					if err != nil {
-						return
-					}
-					fresh := pc.zero()
-					e.X1 = b2i(rt.unmarshal(b, fresh) == nil && rt.equal(m, fresh))
-					e.Szok = b2i(csproto.Size(m) == len(b) && sizeBefore == len(b))
-					gb, gerr := csproto.GrpcCodec{}.Marshal(m)
-					f2 := pc.zero() // (not byte equality: map fields are marshaled in random order)
-					e.Same = b2i(gerr == nil && len(gb) == len(b) && rt.unmarshal(gb, f2) == nil && rt.equal(m, f2))
-					e.Cls = clsName(csproto.MsgType(m))
-				})
-				if e.St == "" {
-					if err != nil {
-						e.St, e.Note = "err", err.Error()
-					} else {
-						e.St = "ok"
-					}
-				}
-				d.emitD(e)
+			for fi, first := range []string{"csproto.Marshal", "csproto.Size", "runtime.Marshal", "GrpcCodec.Marshal",
+				"csproto.Marshal/direct", "runtime.Marshal/direct", "csproto.Size/direct"} {
+				// "/direct": nothing sizes the message between the mutation and csproto.Marshal (a Size call would refresh the
+				// runtime's cached sizes and hide a Marshal that trusts them)
+				direct := strings.HasSuffix(first, "/direct")
+				first = strings.TrimSuffix(first, "/direct")
+				d.marshalAfter(pc, []string{first, "grow"}, direct, fmt.Sprintf("plain/%s/%s/%s#%d", pc.fl, pc.name, first, fi))
 			}
 		}
 		d.msgTypeConc(specFlavour(pc.fl), "plain/"+pc.fl+"/"+pc.name, pc.zero, G)
@@ -1879,4 +1846,94 @@ func lateDesc(a TypeInfo) interface{} {
 	}
 	return &gogoproto.ExtensionDesc{ExtendedType: extended.(gogoproto.Message), ExtensionType: (*int32)(nil), Field: 199,
 		Name: "verif.p2ext.late", Tag: "varint,199,opt,name=late"}
+}
+
+// marshalAfter applies a history of sizing / marshaling calls and in-place changes of a nested message to a message WITHOUT generated
+// fast-marshal code, then records csproto.Marshal of it (operation MarshalMutated): the bytes must decode to the current contents and
+// every size csproto reports must be their length, whatever was cached in the message by the calls before.
+func (d *Driver) marshalAfter(pc plainCase, pre []string, direct bool, key string) {
+	rt := runtimeOf(pc.fl)
+	e := &DEv{C: "disp", Op: "MarshalMutated", Fl: specFlavour(pc.fl), Key: key}
+	var err error
+	guard(&e.St, &e.Note, func() {
+		m := pc.mk()
+		for _, op := range pre {
+			switch op {
+			case "csproto.Marshal":
+				_, _ = csproto.Marshal(m)
+			case "csproto.Size":
+				_ = csproto.Size(m)
+			case "runtime.Marshal":
+				_, _ = rt.marshal(m)
+			case "GrpcCodec.Marshal":
+				_, _ = csproto.GrpcCodec{}.Marshal(m)
+			case "csproto.Clone":
+				_ = csproto.Clone(m)
+			case "grow":
+				pc.grow(m)
+			}
+		}
+		sizeBefore := -1
+		if !direct {
+			sizeBefore = csproto.Size(m) // asked for before anything re-marshals the message
+		}
+		var b []byte
+		b, err = csproto.Marshal(m)
+		if direct {
+			sizeBefore = len(b)
+		}
+		e.Stab = retain(b)
+		if err != nil {
+			return
+		}
+		fresh := pc.zero()
+		e.X1 = b2i(rt.unmarshal(b, fresh) == nil && rt.equal(m, fresh))
+		e.Szok = b2i(csproto.Size(m) == len(b) && sizeBefore == len(b))
+		gb, gerr := csproto.GrpcCodec{}.Marshal(m)
+		f2 := pc.zero() // (not byte equality: map fields are marshaled in random order)
+		e.Same = b2i(gerr == nil && len(gb) == len(b) && rt.unmarshal(gb, f2) == nil && rt.equal(m, f2))
+		e.Cls = clsName(csproto.MsgType(m))
+	})
+	if e.St == "" {
+		if err != nil {
+			e.St, e.Note = "err", err.Error()
+		} else {
+			e.St = "ok"
+		}
+	}
+	d.emitD(e)
+}
+
+// FamPlainHist (C09, the clause "whether made through csproto ... or through the underlying runtime's own Size/Marshal" for messages that
+// have no generated code: marshal.go / sizeof.go delegate to the runtime): random histories of sizing / marshaling / cloning calls and
+// in-place growth of a nested message, each ended by csproto.Marshal with or without a Size call right before it.
+func (d *Driver) FamPlainHist(n int) {
+	ops := []string{"csproto.Marshal", "csproto.Size", "runtime.Marshal", "GrpcCodec.Marshal", "csproto.Clone", "grow", "grow"}
+	for _, pc := range plainCases() {
+		if pc.grow == nil {
+			continue
+		}
+		d.W.NextGroup()
+		k := 0
+		// every history of one or two calls followed by the change, then random longer ones
+		for _, a := range ops[:5] {
+			for _, direct := range []bool{true, false} {
+				d.marshalAfter(pc, []string{a, "grow"}, direct, fmt.Sprintf("plainhist/%s/%s#%d", pc.fl, pc.name, k))
+				k++
+				for _, b := range ops[:5] {
+					d.marshalAfter(pc, []string{a, "grow", b, "grow"}, direct, fmt.Sprintf("plainhist/%s/%s#%d", pc.fl, pc.name, k))
+					k++
+				}
+			}
+		}
+		for i := 0; i < n; i++ {
+			var pre []string
+			for j, l := 0, 2+d.R.Intn(5); j < l; j++ {
+				pre = append(pre, ops[d.R.Intn(len(ops))])
+			}
+			pre = append(pre, "grow")
+			d.marshalAfter(pc, pre, d.R.Intn(2) == 0, fmt.Sprintf("plainhist/%s/%s#%d", pc.fl, pc.name, k))
+			k++
+		}
+	}
 }
